@@ -48,6 +48,20 @@ def mediaHeaderFacets (pfx : String) (trak : Box) (isVideo : Bool) : Facets :=
 def entryTag : VCodec → Bytes
   | .h264 => tag "avc1" | .h265 => tag "hvc1" | .av1 => tag "av01" | .vp9 => tag "vp09"
 
+/-- AV1-ISOBMFF 2.3.3: the fields of the configuration record "shall be equal" to those of the Sequence
+    Header OBU the record itself carries in configOBUs — a constraint on the record alone (which
+    stream it came from is C07's business). The chroma-sample-position of monochrome streams is left
+    to C07 (known finding av1C-csp). -/
+def av1CSelfConsistent (a : Av1C) : Bool :=
+  match (obus a.obus).find? (·.1.obuType = 1) with
+  | none => a.obus.isEmpty
+  | some (info, obu) =>
+    match parseSeqHdrBits true (bitsOf (obu.drop info.headerSize)) with
+    | none => true
+    | some (p, l, ti, cc) =>
+      a.profile = p ∧ a.level = l ∧ a.tier = ti ∧ a.highBitdepth = cc.highBitdepth ∧ a.twelveBit = cc.twelveBit ∧
+      a.mono = cc.monochrome ∧ a.subX = cc.subX ∧ a.subY = cc.subY
+
 def videoEntryFacets (pfx : String) (t : Track) (codecTag : Bytes) (w h : Nat) : Facets :=
   facet (t.stsd.pre == u32be 0 ++ u32be 1) (pfx ++ "stsd-header") ++
   (match t.stsd.kids with
@@ -60,7 +74,10 @@ def videoEntryFacets (pfx : String) (t : Track) (codecTag : Bytes) (w h : Nat) :
       | [cfg] =>
         if cfg.typ == tag "avcC" then facet (strictAvcC cfg.pre).isSome (pfx ++ "avcC")
         else if cfg.typ == tag "hvcC" then facet (strictHvcC cfg.pre).isSome (pfx ++ "hvcC")
-        else if cfg.typ == tag "av1C" then facet (strictAv1C cfg.pre).isSome (pfx ++ "av1C")
+        else if cfg.typ == tag "av1C" then
+          (match strictAv1C cfg.pre with
+           | none => [pfx ++ "av1C"]
+           | some a => facet (av1CSelfConsistent a) (pfx ++ "av1C-vs-configOBUs"))
         else if cfg.typ == tag "vpcC" then facet (strictVpcC cfg.pre).isSome (pfx ++ "vpcC")
         else [pfx ++ "config-type"]
       | _ => [pfx ++ "config-count"])
